@@ -17,6 +17,7 @@
 */
 
 #include <math.h>
+#include <float.h>
 #include <string.h>
 
 #include "memwrapper.h"
@@ -121,7 +122,7 @@ double calcConvergence(dvector *t_new, dvector *t_old)
  */
 void PCA(matrix *mx, int scaling, size_t npc, PCAMODEL* model, ssignal *s)
 {
-  size_t i, j, pc;
+  size_t i, j, pc, it;
   dvector *t;
   dvector *t_old;
   dvector *p;
@@ -280,16 +281,20 @@ void PCA(matrix *mx, int scaling, size_t npc, PCAMODEL* model, ssignal *s)
 
       /* End Step 1 */
 
+      it = 0;
       while(1){
+        it++;
         /* Step 2: projection of t' in E (t'*E) */
         MT_DVectorMatrixDotProduct(E, t, p);
         /* calc the vectors product t'*t = Sum(t[i]^2) */
         mod_t = DVectorDVectorDotProd(t, t);
 
-        if(mod_t == 0.f){
-          /* Null component: the (deflated) matrix has no variance left, so
-           * the convergence criterion would be NaN forever. Scores, loadings
-           * and dmodx of this component stay zero, the eigenvalue is zero.
+        if(mod_t <= ss*DBL_EPSILON*DBL_EPSILON){
+          /* Null component: the (deflated) matrix has no variance left (nothing, or
+           * less than the squared machine precision of the total variance), so the
+           * loading would be 0/0 or noise over noise and the convergence criterion
+           * NaN forever. Scores, loadings and dmodx of this component stay zero,
+           * the eigenvalue is zero.
            */
           eval->data[pc] = 0.f;
           break;
@@ -331,7 +336,10 @@ void PCA(matrix *mx, int scaling, size_t npc, PCAMODEL* model, ssignal *s)
         puts("....................");
         #endif
 
-        if(calcConvergence(t, t_old) < PCACONVERGENCE){
+        /* On an exhausted matrix the iteration runs on rounding noise and may
+         * never meet the criterion: stop after PCAMAXITERATIONS.
+         */
+        if(calcConvergence(t, t_old) < PCACONVERGENCE || it >= PCAMAXITERATIONS){
           /* copy the loadings and score to the output data matrix */
           for(i = 0; i < t->size; i++){
             model->scores->data[i][pc] = t->data[i];
